@@ -10,7 +10,8 @@ def sig(t, step, clause):
     exc = {"parse": p["parsed"], "ser": p["ser"], "reparse": p["reparse"], "reser": p["reser"]}[stage]
     if clause == "ReturnsInBoundedTime":
         what = a.get("opener", "") + "/" + a.get("ctx", "") if a["kind"] == "nest" else (a["kind"] + ":" + a.get("name", "") + ":" + a.get("shape", "") if a["kind"] == "propvalue" else
-                "longrun:%s:%s:%s" % (a["opener"], a["body"], a["end"]) if a["kind"] == "longrun" else a["kind"])
+                "longrun:%s:%s:%s" % (a["opener"], a["body"], a["end"]) if a["kind"] == "longrun" else
+                "wide:%s" % a["what"] if a["kind"] == "wide" else a["kind"])
         return "C01|Soup|%s|%s" % (clause, what)
     return "C01|Soup|%s|%s|%s@%s" % (clause, stage, exc, p.get("where", ""))
 
